@@ -5,7 +5,9 @@ Real lbry.dht.node.Node objects on the in-memory UDP fabric (vf.udpfab) under th
 hit      loss-free honest networks: join through node 0 to a routing-table fixed point, announce, every other node looks
          the blob up.  Default FIFO delivery for every (n, join order, announcer, hash); deviation-bounded DFS over
          delivery order / early delivery / duplication / delay past a timer (never past the datagram's own RPC timeout)
-         on the announce+lookup phases, forked from a snapshot taken after the join.  Expiry at 24 h -1 s / +0 / +1 s.
+         on the announce+lookup phases, forked from a snapshot taken after the join.  Announcement histories (single,
+         re-announced, second announcer, duplicated store, new tcp port, the real BlobAnnouncer loop) probed at
+         latest announcement + 24 h -1 s / +0 / +1 s.
 paging   one storing node holding N = 1..100 announcers (stored through the real store RPC by N scripted contacts);
          a client whose only contact is that node must be handed all N.
 term     networks in which every subset of the non-searcher nodes is silent / answers garbage / answers with one of a
@@ -286,7 +288,7 @@ def replay_dict(case):
 
 
 HOUR = 3600
-ANNOUNCER_HOURS = {'quick': 26, 'thorough': 120}
+ANNOUNCER_HOURS = {'quick': 26, 'thorough': 96}
 
 
 def expiry_plan(n, tier=None):
@@ -1227,7 +1229,7 @@ def plan(tier, seed):
                     if quick:
                         expiry = 'long' if (oi == 0 and n <= 4) else False
                     elif oi == 0 and n <= 12:
-                        expiry = 'long' if n <= 8 else 'short'
+                        expiry = 'long' if n <= 5 else 'short'
                     else:
                         expiry = 'short' if (oi == len(orders) - 1 and n <= 5) else False
                     if expiry:
@@ -1278,7 +1280,7 @@ def dfs_scope(tier):
                 for h in HASH_NAMES:
                     add(2, order, 0.0, ann, h, 1, 'full')
         for order in join_orders(3):
-            for ann in (0, 2):
+            for ann in ((0, 2) if order == [0, 1, 2] else (2,)):
                 add(3, order, 0.0, ann, 'far', 1, 'full')
         for order in (join_orders(4)[0], join_orders(4)[-1]):
             for ann in (0, 3):
@@ -1349,8 +1351,13 @@ def run(ctx):
         rule=('hit: every (n, join order, start stagger 0/3 s, announcer, blob hash in {next to announcer id, next to '
               'bootstrap id, far from all ids}) on the default FIFO schedule; every choice sequence within the deviation '
               'bound (early / non-oldest delivery, duplication, a timer overtaking pending datagrams but never an RPC '
-              'timeout) over the announce+lookup phases of the cases listed in bounds.deviation_cases; expiry probes at '
-              '24h-1s, 24h, 24h+1s after an unbroken 24 h of periodic traffic; paging: every N = 1..100; term: for every '
+              'timeout) over the announce+lookup phases of the cases listed in bounds.deviation_cases; announcement '
+              'histories on one 24-48 h timeline of unbroken periodic traffic: every (announcer, hash) announced once, the '
+              'same node re-announcing 1 s / 12 h / 24 h-1 s later, a second node announcing 12 h later, a re-announcement '
+              'with every store datagram duplicated, a re-announcement from a new tcp port, probed by every other node at '
+              'latest+24h-1s (found), +24h exactly and +24h+1s (gone), judged against "age counts from the latest '
+              'announcement"; the real BlobAnnouncer loop (stub storage with SQLiteStorage policy) for 26 h (quick) / 96 h '
+              'then stopped and followed to expiry (thorough); paging: every N = 1..100; term: for every '
               'fault kind every subset of the non-searcher nodes (n=3: also one node answering with each single invalid '
               'peer address; thorough n=3: every mixed assignment) x 5 lookups (3 node, 2 value), plus loss / over-timeout '
               'delay of each datagram as deviations. Distinct non-trivial = distinct (case, digest of the observed delivery '
@@ -1363,7 +1370,9 @@ def run(ctx):
                                            sum(1 for e in scope if (e['n'], e['bound'], e['alphabet']) ==
                                                (d['n'], d['bound'], d['alphabet']))) for d in scope}),
                 'deviation_cases_format': '(n, bound, alphabet, number of (order, announcer, hash) cases); see dfs_scope()',
-                'expiry_n': [2, 3, 4] if quick else [2, 3, 4, 5, 8, 9, 12],
+                'history_n': {'reannouncement_histories_48h': [2, 3, 4] if quick else [2, 3, 4, 5],
+                              'single_announcement_24h_only': [] if quick else [8, 9, 12],
+                              'new_tcp_port': [3] if quick else [3, 5], 'blob_announcer': {'n': 6, 'hours': ANNOUNCER_HOURS[ctx.tier]}},
                 'paging_counts': '1..100', 'term_n': [3, 4, 5, 6], 'fault_kinds': list(FAULT_KINDS),
                 'single_invalid_values': ['%s:%d' % bv for bv in BAD_VALUES],
                 'term_loss_scope': 'quick: n=3 bound 1; thorough: n=3 bound 2 (honest/silent/garbage) + bound 1 (all '
@@ -1381,11 +1390,17 @@ def run(ctx):
             '3.12 selector datagram transports do)',
             'os.urandom / random used by lbry.dht are replaced by deterministic streams keyed by VERIF_SEED',
             'a lookup "finishes" when its async iterator is exhausted or raises; faulty nodes are marked after the join',
+            'BlobAnnouncer runs against a stub of the two SQLiteStorage calls it makes (due when next_announce_time is '
+            'past; success moves it DATA_EXPIRATION/2 ahead), on the virtual clock',
         ],
         expected_witnesses=['announce_stored', 'stored_on_exactly_k_closest', 'deviation_changed_delivery_order',
                             'deviation_dup', 'deviation_timer', 'paging_needed_more_than_one_request',
                             'lookup_survived_rpc_timeouts', 'deviation_drop', 'deviation_late',
                             'expiry_probed_at_exact_boundary', 'hit_one_second_before_expiry',
+                            'found_more_than_24h_after_first_announcement_thanks_to_reannouncement',
+                            'two_announcers_expire_on_their_own_clocks', 'reannouncement_with_duplicated_store_datagrams',
+                            'reannouncement_from_new_tcp_port_replaced_the_entry',
+                            'blob_announcer_schedule_keeps_blob_findable_past_24h',
                             'node_lookup_yielded_contacts', 'value_lookup_yielded_peers'] +
                            ['lookup_needed_2_rounds'],
     )
